@@ -7,6 +7,7 @@ mod obs;
 mod prng;
 mod proto;
 mod report;
+mod timer;
 
 pub struct Args {
     pub family: String,
@@ -72,6 +73,7 @@ fn main() {
     let mut model = proto::Model::spawn(&args.model);
     let mut rep = match args.family.as_str() {
         "c19" => c19::run(&args, &mut model),
+        "c16" => timer::run(&args, &mut model),
         f => {
             eprintln!("unknown family {}", f);
             std::process::exit(2);
